@@ -63,7 +63,7 @@ def _gen_bitmap(rng):
 
 def _gen_state(rng, k, cs):
     if k == "c":
-        return ["c", rng.choice(["zero", "pat", "pat", "mix1", "mix4", "mix7"] + (["stored"] if cs <= 65536 else [])), rng.randrange(1 << 16)]
+        return ["c", rng.choice(["zero", "pat", "pat", "mix1", "mix4", "mix7"] + (["stored"] if cs <= 16384 else [])), rng.randrange(1 << 16)]
     return _gen_bitmap(rng) if k == "s" else [k]
 
 
@@ -164,7 +164,7 @@ def gen_recipe(rng, tier="quick", **kn):
     r["bn_pos"] = rng.choice(["tight", "tight", "gap", "end"])
     # physical layout
     lim = 1 << (min(56, 70 - cb) if comp else 56)
-    jumps = kn.get("jumps")
+    jumps = sorted(b for b in kn["jumps"] if 2 * b <= lim) if "jumps" in kn else None      # host offsets must stay below 2^56 (compressed: 2^(70-cluster_bits))
     if jumps is None:
         jumps = []
         if rng.random() < 0.3:
@@ -359,19 +359,19 @@ class Truth:
             h += struct.pack(">II", magic, len(d)) + d + bytes(-len(d) % 8)
         if r["end_marker"]:
             h += bytes(8)
+        skip = min(24, cs - len(h))
         if r["backing"]:
-            name = r["backing_name"].encode()
+            name, skip = r["backing_name"].encode(), 0
             if r["bn_pos"] != "tight" and len(h) + len(name) + 16 <= cs:
                 room = cs - len(h) - len(name)
                 skip = room if r["bn_pos"] == "end" else g.randrange(1, min(room, 64) + 1)
                 if not r["end_marker"]:
                     skip &= ~7                                  # without an end marker the area up to the name is parsed as extensions
-                h += (bytes([0x5A]) * skip) if r["junk_after_end"] else bytes(skip)
-            struct.pack_into(">QI", h, 8, len(h), len(name))
-            h += name
-        elif r["junk_after_end"]:
-            h += bytes([0x5A]) * min(24, cs - len(h))
-        assert len(h) <= cs, "header area exceeds the first cluster"
+            struct.pack_into(">QI", h, 8, len(h) + skip, len(name))
+            assert len(h) + skip + len(name) <= cs, "header area exceeds the first cluster"
+            img.put_hex(len(h) + skip, name)
+        if r["junk_after_end"]:
+            img.put_fill(len(h), skip, 0x5A)                    # bytes after the end marker are not extensions
         img.put_hex(0, bytes(h))
         self.files["img"] = img.finish(max(end, cs))
         if r["datafile"]:
@@ -456,6 +456,9 @@ class Truth:
     def snapshot_read(self, i, off, n):
         return self._read_map(i + 1, off, n)
 
+    def snapshot_reader(self, i):
+        return lambda off, n: self._read_map(i + 1, off, n)
+
 
 def gen_queries(rng, t, n, k=0):
     """[["o", off, len]] (core.truth_ops / impl_ops format) around the interesting edges of map k (0 = active, j+1 = snapshot j)"""
@@ -535,6 +538,9 @@ def check_case(r, rng, nq=10):
             else:
                 bad.append(f"meta.{k}: stored {t.meta[k]!r} exposed {v!r}")
     streams = [(0, "active", lambda: q)] + [(j + 1, f"snapshot[{j}]", (lambda j=j: q.snapshots[j].open())) for j in range(len(r["snaps"]))]
+    if im["snapshots"] != t.meta["snapshots"]:
+        bad.append("snapshot reads skipped: the snapshot table was misparsed (bogus L1 offsets/sizes)")
+        streams = streams[:1]
     for k, label, opener in streams:
         try:
             s = opener()
@@ -553,7 +559,7 @@ def selftest(n=300, seed=0, tier="quick", watchdog=30, **knobs):
     import signal
     import time
     rng = random.Random(f"qcow2/selftest/{seed}")
-    t0, nbad, nnotes, feats = time.time(), 0, 0, {}
+    t0, nbad, nnotes, feats, causes = time.time(), 0, 0, {}, {}
 
     def on_alarm(*a):
         raise _Watchdog(f"watchdog: case took more than {watchdog} s (hang?)")
@@ -574,11 +580,15 @@ def selftest(n=300, seed=0, tier="quick", watchdog=30, **knobs):
         nnotes += len(notes)
         if bad:
             nbad += 1
+            cause = ("snapshot L1 shorter than the active L1" if any(x["l1_size"] < r["l1_size"] for x in r["snaps"]) else
+                     "snapshot extra_data_size>24" if any(x["extra"] > 24 for x in r["snaps"]) else "other")
+            causes[cause] = causes.get(cause, 0) + 1
             print(f"MISMATCH case {i}:")
             for b in bad:
                 print("   ", b)
             print("    recipe:", json.dumps(r))
     print(f"gen_qcow2 selftest: {n} recipes, {nbad} with mismatches, {nnotes} notes (backing_format exposed upper-cased), {time.time() - t0:.1f}s")
+    print("mismatching recipes by shape:", causes)
     print("coverage:", " ".join(f"{k}={v}" for k, v in sorted(feats.items())))
     return nbad
 
